@@ -201,6 +201,69 @@ def runtime_tables(mir):
     return tables
 
 
+def literal_constants(mir):
+    """push_literal (compile time): atom -> float constant pushed for it"""
+    names = [n for n in mir.index if re.search(r"(^|::)push_literal$", n)]
+    if len(names) != 1:
+        raise core.Unsupported("push_literal: %s" % names)
+    body = mir.body(names[0])
+    paths = core.Executor(body, max_depth=300, max_paths=2000).run("bb0")
+    out = {}
+    for p in paths:
+        if p.end != "return":
+            continue
+        idx = None
+        for tm, op, v in p.conds:
+            ra = util.root_app(tm)
+            # `name == &atom!("e")` is a PartialEq call on two atoms, not a switchInt
+            if ra and ra[1].endswith("PartialEq>::eq") and ((op == "not_in" and 0 in v) or
+                                                             (op == "==" and v == 1)):
+                for a in ra[2]:
+                    val = p.env.get(a[1]) if a[0] == "ref" else a
+                    if val and val[0] == "ref":
+                        val = p.env.get(val[1]) or val
+                    if val and val[0] == "atom":
+                        idx = val[1]
+                    elif val and val[0] == "k" and "promoted" in val[1]:
+                        idx = ("promoted", val[1])
+        pushes = [e for e in p.events if e[0] == "call" and e[1].endswith("::push")]
+        consts = []
+        for e in pushes:
+            t = e[2][1]
+            txt = util.term_str(t)
+            m = re.search(r"(std::f64::[\w:]+|[-\d.eE+]+f64)", str(t))
+            if m:
+                consts.append(m.group(1))
+        if idx is not None and consts:
+            out[idx] = consts[-1]
+    return out
+
+
+def runtime_constants(mir):
+    body = mir.body(mir.find(r"::arith_eval_by_metacall$")[0])
+    out = {}
+    for bb, ls in body.blocks.items():
+        m = re.match(r"^switchInt\(copy \((_\d+)\.0: u64\)\) -> \[(.*)\];$", ls[-1])
+        if not m:
+            continue
+        targets = re.findall(r"(\d+): (bb\d+)", m.group(2))
+        if len(targets) > 6:
+            continue
+        for val, tb in targets:
+            cur = tb
+            for _ in range(6):
+                txt = " ".join(body.blocks[cur])
+                c = re.search(r"OrderedFloat::<f64>\(const ([\w:]+|[-\d.eE+]+f64)\)", txt)
+                if c:
+                    out[int(val)] = c.group(1)
+                    break
+                nx = re.search(r"(?:goto -> |return: )(bb\d+)", body.blocks[cur][-1])
+                if not nx:
+                    break
+                cur = nx.group(1)
+    return out
+
+
 def norm_sig(sigs):
     """canonical form of a set of (kernel chain, rational flag[, consts]) alternatives:
     the kernel chain only, with rational conversion recorded as a flag"""
